@@ -44,6 +44,18 @@ def metaschema_valid(schema):
         return True
 
 
+def _has_big_int(v):
+    if isinstance(v, bool):
+        return False
+    if isinstance(v, int):
+        return abs(v) >= 2 ** 53
+    if isinstance(v, list):
+        return any(_has_big_int(x) for x in v)
+    if isinstance(v, dict):
+        return any(_has_big_int(x) for x in v.values())
+    return False
+
+
 def classify(schema, value, expected, kind):
     """Narrow root-cause predicates for recorded known findings; else a coarse signature."""
     from mc.checks import c01_known
@@ -62,7 +74,10 @@ def check_pair(st, schema, schema_text, element, value, js_validator, two_pass):
     if js_validator is not None:
         try:
             js = js_validator.is_valid(value)
-            if js != (strict == R.V):
+            if js != (strict == R.V) and "multipleOf" in schema_text and _has_big_int(value):
+                # jsonschema divides as floats and misjudges integers beyond 2**53; the reference is exact (Fraction)
+                st.add("oracle_unavailable")
+            elif js != (strict == R.V):
                 st.add("ref_disagreements")
                 st.violation("MODEL-ERROR:ref-vs-jsonschema", "reference evaluator disagrees with jsonschema", {"schema": schema, "value": value, "ref": strict, "jsonschema": js})
             else:
